@@ -1,0 +1,138 @@
+//go:build verif
+
+package analyzer
+
+import (
+	"github.com/smarthome-go/homescript/v3/homescript/diagnostic"
+	"github.com/smarthome-go/homescript/v3/homescript/errors"
+)
+
+// lastIsErrorAt: the most recent diagnostic is an error reported at span.
+func (self *Analyzer) lastIsErrorAt(span errors.Span) bool {
+	return len(self.diagnostics) > 0 && self.diagnostics[len(self.diagnostics)-1].Level == diagnostic.DiagnosticLevelError && self.diagnostics[len(self.diagnostics)-1].Span == span
+}
+
+// Specification vocabulary and contracts checked by /verif/hvc (build tag
+// verif only; see /verif/DESIGN.md, C03).
+
+/*@ assume-pure analyzer/ast.AnalyzedExpression.Type nonnil @*/
+
+// Diagnostics are only ever appended.
+
+/*@ func (self *Analyzer) error
+    serves C03
+    ensures @appended len(self.diagnostics) == old(len(self.diagnostics))+1
+    ensures @error-level self.diagnostics[len(self.diagnostics)-1].Level == diagnostic.DiagnosticLevelError && self.diagnostics[len(self.diagnostics)-1].Message == message && self.diagnostics[len(self.diagnostics)-1].Span == span
+    ensures @earlier-kept forall i in 0..old(len(self.diagnostics)) :: self.diagnostics[i].Level == old(self.diagnostics[i].Level) && self.diagnostics[i].Message == old(self.diagnostics[i].Message) && self.diagnostics[i].Span == old(self.diagnostics[i].Span)
+@*/
+
+/*@ func (self *Analyzer) warn
+    serves C03
+    ensures @appended len(self.diagnostics) == old(len(self.diagnostics))+1
+    ensures @not-an-error self.diagnostics[len(self.diagnostics)-1].Level == diagnostic.DiagnosticLevelWarning
+    ensures @earlier-kept forall i in 0..old(len(self.diagnostics)) :: self.diagnostics[i].Level == old(self.diagnostics[i].Level) && self.diagnostics[i].Message == old(self.diagnostics[i].Message) && self.diagnostics[i].Span == old(self.diagnostics[i].Span)
+@*/
+
+// Sub-expressions are analysed first; their diagnostics stay (assumed here,
+// each construct's own rule is verified where it is implemented).
+
+/*@ func (self *Analyzer) expression
+    serves C03
+    trusted
+    ensures result != nil
+    ensures @diagnostics-kept len(self.diagnostics) >= old(len(self.diagnostics))
+    ensures @loop-depth-kept self.currentModule == old(self.currentModule) && (self.currentModule != nil ==> self.currentModule.LoopDepth == old(self.currentModule.LoopDepth))
+@*/
+
+// The scalar fragment of type compatibility: equal kinds are compatible,
+// different scalar kinds are not; no diagnostic is emitted by the check itself.
+
+/*@ func (self *Analyzer) checkTypeKindEquality
+    serves C03
+    assume-safety
+    requires got != nil && expected != nil
+    ensures @silent len(self.diagnostics) == old(len(self.diagnostics))
+    ensures @same-kind got.Kind() == expected.Kind() && got.Kind() != ast.UnknownTypeKind && got.Kind() != ast.NeverTypeKind ==> err == nil && proceed
+    ensures @different-kind got.Kind() != expected.Kind() && got.Kind() != ast.UnknownTypeKind && got.Kind() != ast.NeverTypeKind && expected.Kind() != ast.UnknownTypeKind && expected.Kind() != ast.NeverTypeKind ==> err != nil && err.GotDiagnostic.Level == diagnostic.DiagnosticLevelError
+@*/
+
+/*@ func (self *Analyzer) TypeCheck
+    serves C03
+    assume-safety
+    assumepre TypeCheck
+    requires got != nil && expected != nil
+    ensures @silent len(self.diagnostics) == old(len(self.diagnostics))
+    ensures @scalars-same-kind ast.VScalarKind(got.Kind()) && got.Kind() == expected.Kind() ==> result == nil
+    ensures @scalars-different-kind ast.VScalarKind(got.Kind()) && ast.VScalarKind(expected.Kind()) && got.Kind() != expected.Kind() ==> result != nil && result.GotDiagnostic.Level == diagnostic.DiagnosticLevelError
+@*/
+
+/*@ func (self *Analyzer) infixExpression
+    serves C03, C04
+    assume-safety
+    assumepre expression, TypeCheck
+    ensures @operator-kept result.Operator == node.Operator && result.Lhs != nil && result.Rhs != nil
+    ensures @result-type ast.VScalarKind(result.Lhs.Type().Kind()) && ast.VInfixAdmits(node.Operator, result.Lhs.Type().Kind()) ==> result.ResultType != nil && result.ResultType.Kind() == ast.VInfixResultKind(node.Operator, result.Lhs.Type().Kind())
+    ensures @rejected ast.VScalarKind(result.Lhs.Type().Kind()) && !ast.VInfixAdmits(node.Operator, result.Lhs.Type().Kind()) ==> len(self.diagnostics) > old(len(self.diagnostics)) && self.diagnostics[len(self.diagnostics)-1].Level == diagnostic.DiagnosticLevelError
+    ensures @operand-mismatch-rejected ast.VScalarKind(result.Lhs.Type().Kind()) && ast.VScalarKind(result.Rhs.Type().Kind()) && result.Lhs.Type().Kind() != result.Rhs.Type().Kind() ==> len(self.diagnostics) > old(len(self.diagnostics))
+    assert @errors-only-for-inadmissible before-each cannot be used on values of type :: !ast.VInfixAdmits(node.Operator, lhs.Type().Kind())
+@*/
+
+/*@ func (self *Analyzer) prefixExpression
+    serves C03
+    assume-safety
+    assumepre expression
+    requires node.Operator <= pAst.IntoSomePrefixOperator
+    ensures @rejected ast.VScalarKind(result.Base.Type().Kind()) && !ast.VPrefixAdmits(node.Operator, result.Base.Type().Kind()) ==> len(self.diagnostics) > old(len(self.diagnostics)) && self.diagnostics[len(self.diagnostics)-1].Level == diagnostic.DiagnosticLevelError
+    ensures @result-type ast.VScalarKind(result.Base.Type().Kind()) && ast.VPrefixAdmits(node.Operator, result.Base.Type().Kind()) && node.Operator != pAst.IntoSomePrefixOperator ==> result.ResultType != nil && result.ResultType.Kind() == result.Base.Type().Kind()
+    ensures @option-result node.Operator == pAst.IntoSomePrefixOperator ==> result.ResultType != nil && result.ResultType.Kind() == ast.OptionTypeKind
+    assert @errors-only-for-inadmissible before-each cannot be used on values of type :: !ast.VPrefixAdmits(node.Operator, base.Type().Kind())
+@*/
+
+// Blocks and sub-statements keep the loop bookkeeping balanced (assumed for
+// the callee, verified for each loop construct below).
+
+/*@ func (self *Analyzer) block
+    serves C03
+    trusted
+    ensures @diagnostics-kept len(self.diagnostics) >= old(len(self.diagnostics))
+    ensures @loop-depth-kept self.currentModule == old(self.currentModule) && self.currentModule.LoopDepth == old(self.currentModule.LoopDepth)
+@*/
+
+/*@ func (self *Analyzer) expectLoopToReturnNull
+    serves C03
+    trusted
+    ensures @diagnostics-kept len(self.diagnostics) >= old(len(self.diagnostics))
+    ensures @loop-depth-kept self.currentModule == old(self.currentModule) && self.currentModule.LoopDepth == old(self.currentModule.LoopDepth)
+@*/
+
+/*@ func (self *Analyzer) breakStatement
+    serves C03
+    requires self.currentModule != nil
+    ensures @outside-a-loop old(self.currentModule.LoopDepth) == 0 ==> len(self.diagnostics) == old(len(self.diagnostics))+1 && self.lastIsErrorAt(node.Range)
+    ensures @inside-a-loop old(self.currentModule.LoopDepth) != 0 ==> len(self.diagnostics) == old(len(self.diagnostics))
+@*/
+
+/*@ func (self *Analyzer) continueStatement
+    serves C03
+    requires self.currentModule != nil
+    ensures @outside-a-loop old(self.currentModule.LoopDepth) == 0 ==> len(self.diagnostics) == old(len(self.diagnostics))+1 && self.lastIsErrorAt(node.Range)
+    ensures @inside-a-loop old(self.currentModule.LoopDepth) != 0 ==> len(self.diagnostics) == old(len(self.diagnostics))
+@*/
+
+/*@ func (self *Analyzer) loopStatement
+    serves C03
+    assume-safety
+    requires self.currentModule != nil && self.currentModule.LoopDepth < 1<<62
+    ensures @loop-depth-restored self.currentModule == old(self.currentModule) && self.currentModule.LoopDepth == old(self.currentModule.LoopDepth)
+    assert @body-inside-loop before body := self.block(node.Body, true) :: self.currentModule.LoopDepth == old(self.currentModule.LoopDepth)+1
+@*/
+
+/*@ func (self *Analyzer) whileStatement
+    serves C03
+    assume-safety
+    assumepre expression, TypeCheck
+    requires self.currentModule != nil && self.currentModule.LoopDepth < 1<<62
+    ensures @loop-depth-restored self.currentModule == old(self.currentModule) && self.currentModule.LoopDepth == old(self.currentModule.LoopDepth)
+    ensures @condition-must-be-bool ast.VScalarKind(result.Condition.Type().Kind()) && result.Condition.Type().Kind() != ast.BoolTypeKind ==> len(self.diagnostics) > old(len(self.diagnostics))
+    assert @body-inside-loop before body := self.block(node.Body, true) :: self.currentModule.LoopDepth == old(self.currentModule.LoopDepth)+1
+@*/
